@@ -154,7 +154,10 @@ UpRes(ts, out, q, fl) == [ts |-> ts, out |-> out, q |-> q, flush |-> fl]
 
 (* minimal payload length a message of this type needs to be interpreted (shorter ones are C12's subject) *)
 MinData(ty, d) ==
-    CASE ty \in {MSG_BM_OCC, MSG_BM_FREE, MSG_CS_STATE, MSG_BOOST_STAT, MSG_PKT_CAPACITY, MSG_STALL, MSG_CS_DRIVE_EVENT, MSG_SYS_ERROR} -> 1
+    CASE ty \in {MSG_BM_OCC, MSG_BM_FREE, MSG_CS_STATE, MSG_BOOST_STAT, MSG_PKT_CAPACITY, MSG_STALL, MSG_CS_DRIVE_EVENT, MSG_NODETAB_COUNT} -> 1
+      [] ty = MSG_SYS_ERROR -> IF Len(d) >= 1 /\ d[1] \in {4, 16} THEN 2 ELSE 1        \* sequence / bus errors carry a detail byte
+      [] ty = MSG_FEATURE -> 2
+      [] ty = MSG_NODETAB -> 9
       [] ty = MSG_BM_MULTIPLE -> IF Len(d) >= 2 THEN 2 + ((d[2] + 7) \div 8) ELSE 2
       [] ty \in {MSG_BM_CONFIDENCE, MSG_CS_DRIVE_ACK, MSG_CS_ACCESSORY_ACK, MSG_CS_ACCESSORY_MANUAL, MSG_LC_STAT, MSG_LC_WAIT} -> 3
       [] ty = MSG_BM_POSITION -> 5
